@@ -22,14 +22,18 @@ COQ_NAME = {"code": "FCode", "desc": "FDesc", "tags": "FTags", "comments": "FCom
 # ---------------------------------------------------------------- vocabulary
 # Patterns: literals, '.', '.*', classes, alternation, '?', '+', groups only — the subset on which
 # Rust regex `^(?:p)$`.is_match and Python re.fullmatch define the same language.
+# Patterns with their OWN anchors and a top-level alternation (`^ab|cd$`) are the ones for which
+# "wrapped as one whole-string match" differs from "compiled as written".
 PATS = {
-    "code": ["c1", "c.", "c[12]", ".*", "", "#1", "a b", "c1|c2", ".+", "c"],
-    "desc": ["abc", "abc.*", ".*abc", "ab", "abcd?", ".*", "", "x abc", "(ab|abc)d?", "ünï", "ü.*", ".+"],
-    "tags": ["t1", "t2", "t.", "t[12]", "a:b", "a:.*", ".*", "x-y|t2", "t1t2", "abc", "t"],
-    "comments": ["note", "abc", "", ".*", "x ; y", ".*;.*", "(abc|note)", "no", ".+"],
-    "pacc": ["a", "a:b", "a:b:c", "a.*", "a:.*", ".*", "a|e", "[ae]", "a:b(:c)?", "ab?", ".+:.+", "e.*", "e", "abc", "a.", "e:x"],
-    "pcomment": ["pc", "abc", "", ".*", "p.", ".+", "pc|abc"],
-    "pcomm": ["EUR", "E.*", "E", "U.D|EUR", "", ".*", ".+", "USD", "[EU].*", "ACME", "A.*|E"],
+    "code": ["c1", "c.", "c[12]", ".*", "", "#1", "a b", "c1|c2", ".+", "c", "^c|2$", "^c1$", "^c", "1$", "^a|b$"],
+    "desc": ["abc", "abc.*", ".*abc", "ab", "abcd?", ".*", "", "x abc", "(ab|abc)d?", "ünï", "ü.*", ".+",
+             "^ab|cd$", "^abc$", "^ab", "bc$", "^x|bc$", "^a|d$", "^ü|ï$"],
+    "tags": ["t1", "t2", "t.", "t[12]", "a:b", "a:.*", ".*", "x-y|t2", "t1t2", "abc", "t", "^t|2$", "^a|y$", "^t1$", "^x|c$"],
+    "comments": ["note", "abc", "", ".*", "x ; y", ".*;.*", "(abc|note)", "no", ".+", "^n|c$", "^x|y$", "^note$", "^a|e$"],
+    "pacc": ["a", "a:b", "a:b:c", "a.*", "a:.*", ".*", "a|e", "[ae]", "a:b(:c)?", "ab?", ".+:.+", "e.*", "e", "abc", "a.", "e:x",
+             "^a|c$", "^e|x$", "^a:b$", "^a|b$", "^a", "c$"],
+    "pcomment": ["pc", "abc", "", ".*", "p.", ".+", "pc|abc", "^p|c$", "^a|c$", "^pc$"],
+    "pcomm": ["EUR", "E.*", "E", "U.D|EUR", "", ".*", ".+", "USD", "[EU].*", "ACME", "A.*|E", "^E|D$", "^U|R$", "^EUR$"],
 }
 CODES = [None, None, "c1", "c2", "#1", "a b", ""]
 DESCS = [None, "abc", "abcd", "ab", "x abc", "", "ünï"]
@@ -566,12 +570,51 @@ def process(run, groups, verbose=False):
     return stages
 
 
+def multi_call_stage(run, n):
+    """several transaction sets drawn from ONE loaded TxnData (library use): the size and checksum
+    reported with each set must describe exactly that set, whatever was asked before"""
+    r = run.rng
+    reqs, metas = [], []
+    for _ in range(n):
+        ctx = {"instants": r.sample(INSTANTS, r.randint(2, 4)), "comms": r.sample(COMMS, r.randint(1, 2)),
+               "amounts": [], "points": [], "uuids": []}
+        pool = UUIDS[:]
+        r.shuffle(pool)
+        ts = [gen_txn(r, ctx, True, pool) for _ in range(r.randint(3, 7))]
+        tags = {}
+        f = gen_filter(r, ctx, r.choice([1, 2, 3]), tags)
+        fj, nfj = '{"txnFilter":%s}' % filter_json(f), '{"txnFilter":%s}' % filter_json(("not", f))
+        seq = r.sample([None, fj, nfj, None, fj, nfj], r.randint(3, 6))
+        reqs.append({"conf": {"toml": J.make_toml(audit="true", hash="SHA-256")}, "inputs": [{"text": J.print_journal(ts)}],
+                     "multi_filters": seq})
+        metas.append(seq)
+    res = harness_run(reqs)
+    for rq, seq, rr in zip(reqs, metas, res):
+        if rr.get("stage") != "done" or "multi" not in rr:
+            continue
+        for k, (flt, out) in enumerate(zip(seq, rr["multi"])):
+            run.cov["evaluations"] += 1
+            if "err" in out:
+                if "not valid JSON" in out["err"]:
+                    raise Infra("multi-call stage sent a malformed filter: " + out["err"][:200])
+                continue
+            us = [t["uuid"] for t in out["txns"]]
+            size, digest = parse_md(out.get("metadata"))
+            want = hashlib.sha256("".join(u + "\n" for u in sorted(us)).encode()).hexdigest() if all(us) else None
+            if size != len(us) or (want is not None and digest != want):
+                run.violation("size or checksum reported with a filtered set does not describe that set (several sets drawn from one loaded journal)",
+                              {"journal": rq["inputs"][0]["text"], "sequence_of_filters": seq, "position": k,
+                               "selected_uuids": us, "reported_size": size, "reported_sha256": digest, "expected_sha256": want})
+                break
+
+
 def main(run):
     info = proof_stage(run, "C05", extra_targets=["corr/C05_corr.vo"])
     harness_build()
     n = 220 if run.tier == "quick" else 2500
     groups = load_corpus() + [gen_group(run) for _ in range(n)]
     process(run, groups)
+    multi_call_stage(run, 12 if run.tier == "quick" else 120)
     skipped = sum(1 for g in groups if g.get("skip"))
     if skipped > len(groups) // 5:
         raise Infra("too many generated journals were not loaded: %s" % [g["skip"] for g in groups if g.get("skip")][:3])
